@@ -68,7 +68,7 @@ def go_const(t, c):
     return '%s(%d)' % (t, c)
 
 
-DIV64_BITS = {'quick': 12, 'thorough': 24}
+DIV64_BITS = {'quick': 8, 'thorough': 20}
 
 
 def div64_inputs(t, tier):
@@ -129,7 +129,8 @@ def build_cases(tier, rnd):
             tag = 'un%s_%s' % ({'-': 'neg', '^': 'not', '+': 'plus'}[op], tt)
             cases.append(mk_case(tag, [('x', t)], t, '%sx' % op, lambda x, op=op, t=t: unop(op, t, x)))
         # shifts by a variable count of every unsigned type
-        for cty in (SHIFT_COUNT_TYPES if not quick else ['uint8', 'uint64', 'uint']):
+        ctys = SHIFT_COUNT_TYPES if not quick else (['uint8', 'uint'] if INT_TYPES[t][1] < 64 else ['uint8'])
+        for cty in ctys:
             for op in ('<<', '>>'):
                 tag = '%s_%s_by_%s' % (OPNAME[op], tt, cty)
                 cases.append(mk_case(tag, [('x', t), ('y', cty)], t, 'x %s y' % op, lambda x, y, op=op, t=t: binop(op, t, x, y)))
@@ -143,7 +144,7 @@ def build_cases(tier, rnd):
             for c in consts:
                 cn = ('m%d' % -c) if c < 0 else str(c)
                 nds, sfx = nds_for(t, [op], 1, tier)
-                if sfx and abs(c) >= (1 << DIV64_BITS[tier]):
+                if sfx and (quick or abs(c) >= (1 << DIV64_BITS[tier])):
                     continue
                 tag = '%s_%s_vc_%s%s' % (OPNAME[op], t, cn, sfx)
                 cases.append(mk_case(tag, [('x', t)], t, 'x %s %s' % (op, go_const(t, c)),
@@ -171,6 +172,8 @@ def build_cases(tier, rnd):
                 ps = [p for p in (p1, p2) if p]
                 return ('(or %s)' % ' '.join(ps) if ps else None), v2, 'int'
             nds, sfx = nds_for(t, [o1, o2], 3, tier)
+            if sfx and quick:
+                continue
             cases.append(mk_case(tag + sfx, [('x', t), ('y', t), ('z', t)], t, '(x %s y) %s z' % (o1, o2), ref, nds=nds))
         for op in ARITH + ['<<', '>>']:
             tag = 'assign_%s_%s' % (OPNAME[op], t)
@@ -178,6 +181,8 @@ def build_cases(tier, rnd):
                 cases.append(mk_case(tag, [('x', t), ('y', 'uint8')], t, '\tx %s= y\n\treturn x' % op, lambda x, y, op=op, t=t: binop(op, t, x, y), is_body=True))
             else:
                 nds, sfx = nds_for(t, [op], 2, tier)
+                if sfx and quick:
+                    continue
                 cases.append(mk_case(tag + sfx, [('x', t), ('y', t)], t, '\tx %s= y\n\treturn x' % op, lambda x, y, op=op, t=t: binop(op, t, x, y), is_body=True, nds=nds))
         cases.append(mk_case('inc_%s' % t, [('x', t)], t, '\tx++\n\treturn x', lambda x, t=t: binop('+', t, x, '1'), is_body=True))
         cases.append(mk_case('dec_%s' % t, [('x', t)], t, '\tx--\n\treturn x', lambda x, t=t: binop('-', t, x, '1'), is_body=True))
@@ -204,7 +209,8 @@ def main():
                                bounds={'integers': 'all operand values, full width (no bound)',
                                        'shift counts': 'all values; counts < 32 are case-split by the engine (one path per count), larger ones stay symbolic',
                                        'float/complex': 'see the float section of the evidence'},
-                               cfg={'maxDepth': 600, 'maxPaths': 6000, 'timeoutMs': 20000})
+                               cfg={'maxDepth': 600, 'maxPaths': 6000, 'timeoutMs': 10000, 'maxWallMs': 240000 if tier == 'quick' else 1500000},
+                               z3_timeout_ms=15000 if tier == 'quick' else 60000)
 
 
 if __name__ == '__main__':
